@@ -32,6 +32,7 @@ CONSTANTS
   SoccFresh,  \* select_on_container_copy_construction returns a different instance
   Ops,        \* names of the operations the scenario enables
   MaxCap, MaxCount, BudSet, NTags, MaxReserve,
+  MinCap,     \* generator only: smallest capacity Construct is explored with
   PinAlloc    \* generator only: vector v is always constructed with allocator instance v (bounds who is addressed)
 
 NP == Len(P)
@@ -244,7 +245,8 @@ EffElemMoveAlloc(S0, x, y, al) ==
   THEN [S0 EXCEPT !.el[x] = [S0.el[y] EXCEPT !.al = al], !.el[y] = MovedEl(S0.el[y].al)]
   ELSE [S0 EXCEPT !.el[x] = [S0.el[y] EXCEPT !.al = al], !.el[y].e = MovedFromElem(@)]
 
-PreElemAssign(S0, x, y) == EPresent(S0, x) /\ ELive(S0, y)
+\* (assignment to / swap with a MOVED-FROM element is not demanded by any listed property; only live targets)
+PreElemAssign(S0, x, y) == ELive(S0, x) /\ ELive(S0, y)
 EffElemCopyAssign(S0, x, y) ==
   IF x = y THEN S0
   ELSE SetEl(S0, x, [st |-> "live", e |-> S0.el[y].e, al |-> IF POCCA THEN S0.el[y].al ELSE S0.el[x].al])
@@ -257,7 +259,7 @@ EffElemMoveAssign(S0, x, y) ==
        ELSE [S0 EXCEPT !.el[x] = [st |-> "live", e |-> S0.el[y].e, al |-> S0.el[x].al],
                        !.el[y].e = MovedFromElem(@)]
 
-PreElemSwap(S0, x, y) == EPresent(S0, x) /\ EPresent(S0, y) /\ (POCS \/ EqAlloc(S0.el[x].al, S0.el[y].al))
+PreElemSwap(S0, x, y) == ELive(S0, x) /\ ELive(S0, y) /\ (POCS \/ EqAlloc(S0.el[x].al, S0.el[y].al))
 EffElemSwap(S0, x, y) ==
   IF x = y THEN S0
   ELSE LET a == S0.el[x]  b == S0.el[y]
@@ -369,7 +371,7 @@ Do(n, v, a) ==
   /\ act' = [n |-> n, v |-> v, a |-> a]
 
 AllocChoice(v)   == IF PinAlloc /\ v \in Allocs THEN {v} ELSE Allocs
-Construct        == \E v \in Vecs, c \in 0..MaxCap, b \in BudSet : \E al \in AllocChoice(v) : Do("Construct", v, <<c, b, al>>)
+Construct        == \E v \in Vecs, c \in MinCap..MaxCap, b \in BudSet : \E al \in AllocChoice(v) : Do("Construct", v, <<c, b, al>>)
 DefaultConstruct == \E v \in Vecs : Do("DefaultConstruct", v, <<>>)
 Destroy          == \E v \in Vecs : Do("Destroy", v, <<>>)
 EmplaceBack      == \E v \in Vecs, vs \in VsSpace : vec[v].st = "live" /\ Do("Emplace", v, <<FreshTag(v)>> \o vs)
@@ -385,7 +387,7 @@ MoveAssign       == \E v \in Vecs, w \in Vecs : Do("MoveAssign", v, <<w>>)
 Swap             == \E v \in Vecs, w \in Vecs : Do("Swap", v, <<w>>)
 
 IdxSpace == 0..(MaxReserve - 1)
-ElemFromRef      == \E x \in Elems, v \in Vecs, i \in IdxSpace, al \in Allocs :
+ElemFromRef      == \E x \in Elems, v \in Vecs, i \in IdxSpace : \E al \in AllocChoice(x) :
                        \/ Do("ElemFromRef", x, <<v, i, al>>) \/ Do("ElemFromRvRef", x, <<v, i, al>>)
 ElemCopyMove     == \E x \in Elems, y \in Elems :
                        \/ Do("ElemCopy", x, <<y>>) \/ Do("ElemMove", x, <<y>>)
